@@ -786,3 +786,37 @@ Proof. intros H1 H2 H3. unfold heartbeat_check.
   unfold hc_heartbeat. rewrite D1. replace (hb_env s' =? 1) with false by lia.
   pose proof (close_all_closed s') as X. destruct (close_all s') as [[sc cbs] hang]. cbn [fst snd] in *.
   unfold hc_resources. destruct (t_res _ + RESOURCE_TIMEOUT_MS <? now s); cbn [fst snd]; (split; [apply in_or_app; right; apply in_or_app; right; apply in_or_app; right; left; reflexivity|exact X]). Qed.
+
+(* =================================================================================================== *)
+(* the matching ready / error answer for an Awaiting registration                                      *)
+(* =================================================================================================== *)
+Lemma ready_answer_pub corr orig stream session limit chstat s e :
+  lookup corr (pubs s) = Some e -> e_status e = Awaiting ->
+  exists s', on_event (EvPubReady corr orig stream session limit chstat) s = (s', [CbNewPub corr stream session (e_a1 e)], false) /\
+    lookup corr (pubs s') = Some (set_ready session limit chstat orig (e_obj e) e).
+Proof. intros He Hs. cbn [on_event]. rewrite He. unfold is_awaiting. rewrite Hs. eexists. split; [reflexivity|].
+  cbn [pubs setm]. rewrite lookup_upd_same, He. reflexivity. Qed.
+
+Lemma ready_answer_sub corr chstat s e :
+  lookup corr (subs s) = Some e -> e_status e = Awaiting ->
+  exists s' e', on_event (EvSubReady corr chstat) s = (s', [CbNewSub corr (e_a2 e) (e_a1 e)], false) /\
+    lookup corr (subs s') = Some e' /\ e_status e' = Registered /\
+    e_obj e' = Some (mkObj false (-1) false [] chstat 0 0).
+Proof. intros He Hs. cbn [on_event]. rewrite He. unfold is_awaiting. rewrite Hs. eexists. eexists. split; [reflexivity|].
+  cbn [subs setm]. rewrite lookup_upd_same, He. cbn. auto. Qed.
+
+Lemma ready_answer_counter corr cid s e :
+  lookup corr (ctrs s) = Some e -> e_status e = Awaiting ->
+  exists s' e', on_event (EvCounterReady corr cid) s = (s', [CbAvailCtr corr cid], false) /\
+    lookup corr (ctrs s') = Some e' /\ e_status e' = Registered /\ e_obj e' = Some (mkObj false (-1) false [] cid 0 0).
+Proof. intros He Hs. cbn [on_event]. rewrite He. unfold is_awaiting. rewrite Hs. eexists. eexists. split; [reflexivity|].
+  cbn [ctrs setm]. rewrite lookup_upd_same, He. cbn. auto. Qed.
+
+(* a duplicated or late ready answer (the registration is not Awaiting any more) changes nothing *)
+Lemma ready_answer_not_awaiting_sub corr chstat s e :
+  lookup corr (subs s) = Some e -> e_status e <> Awaiting -> on_event (EvSubReady corr chstat) s = (s, [], false).
+Proof. intros He Hs. cbn [on_event]. rewrite He. unfold is_awaiting. destruct (e_status e); [congruence| |]; reflexivity. Qed.
+Lemma ready_answer_not_awaiting_pub corr orig stream session limit chstat s e :
+  lookup corr (pubs s) = Some e -> e_status e <> Awaiting ->
+  on_event (EvPubReady corr orig stream session limit chstat) s = (s, [], false).
+Proof. intros He Hs. cbn [on_event]. rewrite He. unfold is_awaiting. destruct (e_status e); [congruence| |]; reflexivity. Qed.
